@@ -1436,6 +1436,99 @@ COMMAND_DECORATORS = {"marshall_cdb": ["classmethod"], "unmarshall_cdb": ["class
 COMMAND_PROPERTIES = {"result", "cdb", "datain", "dataout", "sense", "raw_sense_data", "pagecode", "opcode", "page_code"}
 
 
+
+# class Enum (pyscsi/utils/enum.py) is hand-modelled (Model/Enum.v); what is regenerated is the filter of `keys`.  Every other member must have
+# exactly the text the model was written for, and the metaclass must have no further member (a __getattr__ / __getattribute__ / __call__
+# would change what a lookup of a name returns without changing any table)
+EXPECTED_ENUM_METHODS = {
+    "__new__": ("cls, *args: Any, **kwargs: Any", """
+tmp: Dict[str, Any] = {}
+if len(args) == 1 and type(args[0]).__name__ == "dict":
+    tmp.update(args[0])
+elif kwargs:
+    tmp.update(**kwargs)
+else:
+    raise NotSupportedArgumentError(
+        "use either as dict or provide keyword arguments"
+    )
+return super().__new__(cls, cls.__name__, (), tmp)
+"""),
+    "__init__": ("cls, *args: Any, **kwargs: Any", """
+super().__init__(cls.__name__, args, kwargs)
+"""),
+    "__getitem__": ("cls, value: str", """
+for key in cls.keys:
+    if getattr(cls, key) == value:
+        return key
+return ""
+"""),
+    "add": ("cls, key: str, value: Any", """
+if key in cls.keys:
+    raise KeyError(f"key {key} already exist")
+setattr(cls, key, value)
+"""),
+    "remove": ("cls, key: str", """
+try:
+    delattr(cls, key)
+except (AttributeError, KeyError) as ex:
+    raise KeyError(f"Key {ex} not found") from ex
+"""),
+}
+
+
+def enum_class_inventory(mod):
+    """-> list of everything in class Enum that is not exactly what Model/Enum.v models"""
+    from translate import src_of
+    unknown = []
+    classes = [n for n in mod.tree.body if isinstance(n, ast.ClassDef)]
+    cls = next((n for n in classes if n.name == "Enum"), None)
+    if cls is None:
+        return ["class Enum not found"]
+    if [dotted(b) for b in cls.bases] != ["type"] or cls.keywords or cls.decorator_list:
+        unknown.append("Enum: bases / keywords / decorators %s" % " ".join(src_of(cls, mod.text).split())[:80])
+
+    def norm(args, body):
+        t = ast.parse("def f(%s):\n%s" % (args, "\n".join("    " + ln for ln in body.strip("\n").split("\n"))))
+        return ast.dump(t.body[0].args), [ast.dump(x) for x in t.body[0].body]
+    seen = set()
+    for b in cls.body:
+        if isinstance(b, ast.Expr) and isinstance(b.value, ast.Constant) and isinstance(b.value.value, str):
+            continue
+        if not isinstance(b, ast.FunctionDef):
+            unknown.append("Enum: class-level statement %s" % " ".join(src_of(b, mod.text).split())[:100])
+            continue
+        decos = [dotted(d.func if isinstance(d, ast.Call) else d) or "?" for d in b.decorator_list]
+        body = [st for st in b.body if not (isinstance(st, ast.Expr) and isinstance(st.value, ast.Constant) and isinstance(st.value.value, str))]
+        if b.name in seen:
+            unknown.append("Enum.%s: defined twice" % b.name)
+        seen.add(b.name)
+        if b.name == "keys":
+            if decos != ["property"] or [a.arg for a in b.args.args] != ["cls"]:
+                unknown.append("Enum.keys: decorators / parameters %s" % decos)
+            continue                # its filter is regenerated (enum_keys_filter)
+        exp = EXPECTED_ENUM_METHODS.get(b.name)
+        if exp is None:
+            unknown.append("Enum.%s: a member Model/Enum.v does not know" % b.name)
+            continue
+        if decos:
+            unknown.append("Enum.%s: decorators %s" % (b.name, decos))
+            continue
+        eargs, ebody = norm(*exp)
+        if ast.dump(b.args) != eargs or [ast.dump(x) for x in body] != ebody:
+            unknown.append("Enum.%s: not the text Model/Enum.v was written for: %s" % (b.name, " ".join(src_of(b, mod.text).split())[:110]))
+    for name in list(EXPECTED_ENUM_METHODS) + ["keys"]:
+        if name not in seen:
+            unknown.append("Enum.%s: missing" % name)
+    # nothing else in the module may touch the class after its definition
+    for n in mod.tree.body:
+        if n is cls or isinstance(n, (ast.Import, ast.ImportFrom)):
+            continue
+        if isinstance(n, ast.Expr) and isinstance(n.value, ast.Constant):
+            continue
+        unknown.append("enum.py: module-level statement %s" % " ".join(src_of(n, mod.text).split())[:100])
+    return unknown
+
+
 def command_base_inventory(mod):
     """-> list of everything in class SCSICommand that is not exactly what Model/Command.v models"""
     from translate import src_of
@@ -1589,6 +1682,9 @@ def gen_misc(mods):
         filt = "(FUnknown \"keys\")"
     lines.append("Definition enum_keys_filter : fexpr := %s.\n" % filt)
     info["enum_keys_filter"] = filt
+    en_unknown = enum_class_inventory(emod)
+    lines.append("Definition enum_class_unknown : list string := [%s].\n" % "; ".join(coq_str(u[:150]) for u in en_unknown))
+    info["enum_class_unknown"] = en_unknown
     # ---- ISCSIDevice.execute status dispatch, SCSIDevice.execute CheckConditionError handler
     imod = next(m for m in mods if m.stem == "iscsi_device")
     dmod = next(m for m in mods if m.stem == "scsi_device")
